@@ -208,9 +208,21 @@ func (r *Reader) decodeG3ScanLine1D() {
 
 // decodeG3ScanLine2D decodes a Group 3 2D scanline (K > 0).
 func (r *Reader) decodeG3ScanLine2D() {
+	numEOL := 0
 	for r.err == nil && r.peekBits(11) == 0 {
 		r.consumeBits(11)
 		r.waitForOne() // allow for fill bits
+		numEOL++
+		if !r.IgnoreEndOfBlock && numEOL >= 6 {
+			// return to control: six EOL codes, each followed by a tag bit
+			r.line = r.line[:0]
+			r.err = io.EOF
+			return
+		}
+		if r.peekBits(12)&0x7ff == 0 {
+			// the tag bit is followed by another EOL: skip the tag bit
+			r.consumeBits(1)
+		}
 	}
 
 	tp := r.readBits(1)
